@@ -241,7 +241,7 @@ LONGER = ["{\"é\":\"€\U0001F600\"}", "[\"\U0001F600é€\",1]", "\"ééééé
 def cases_c(tier):
     for i, s in enumerate(SHORT + (LONGER if tier == "thorough" else [])):
         b = s.encode("utf-8")
-        if len(b) > (17 if tier == "thorough" else 14):
+        if len(b) > (19 if tier == "thorough" else 14):
             continue
         for comp in gen.compositions(len(b)):
             yield (i, tuple(comp))
